@@ -217,14 +217,22 @@ func laggingFaults(c *Case, clean Result, r *rand.Rand, panics bool) string {
 		}
 		at := total/2 + r.Intn(total/2)
 		st := NewMemStorage(c.Data())
-		var seen, injected int32
+		var seen, injected, slow int32
+		// the lag is spread over the run: at most a few thousand sleeps however long the query
+		events := 0
+		for _, n := range perSel {
+			events += n
+		}
+		every := int32(events/3000 + 1)
 		st.SetHook(func(kind string, n int64, info any) Action {
 			ii, ok := info.(ItInfo)
 			if !ok {
 				return Action{}
 			}
 			if ii.Sel != victim {
-				time.Sleep(150 * time.Microsecond)
+				if atomic.AddInt32(&slow, 1)%every == 0 {
+					time.Sleep(150 * time.Microsecond)
+				}
 				return Action{}
 			}
 			if int(atomic.AddInt32(&seen, 1)) >= at && atomic.CompareAndSwapInt32(&injected, 0, 1) {
@@ -812,7 +820,11 @@ func seqCase(c *Case, lean *LeanDriver) Verdict {
 			cancel()
 			tie := false
 			if df := Diff(got, fresh); df != "" {
-				if ans, _, e := leanInfo(d, lean, "ties"); e == nil && ans["ties"] == "1" {
+				// the tie analysis runs on what the query ran over: the series present now, with
+				// the samples appended so far (not the case's full data set)
+				dt := d.clone()
+				dt.Series = seriesToJ(cur)
+				if ans, _, e := leanInfo(dt, lean, "ties"); e == nil && ans["ties"] == "1" {
 					tie = true
 				} else {
 					v.Other = fmt.Sprintf("query #%d (%s) on the long-lived engine differs from a fresh engine: %s", qi, qs, df)
@@ -952,3 +964,17 @@ func concurrentCase(c *Case, lean *LeanDriver) Verdict {
 
 var _ = labels.MetricName
 var _ storage.Queryable = (*MemStorage)(nil)
+
+// seriesToJ is the inverse of Case.Data.
+func seriesToJ(data []SeriesData) []SeriesJ {
+	out := make([]SeriesJ, len(data))
+	for i, sd := range data {
+		for _, l := range sd.Labels {
+			out[i].Labels = append(out[i].Labels, [2]string{l.Name, l.Value})
+		}
+		for _, smp := range sd.Samples {
+			out[i].Samples = append(out[i].Samples, SampleJ{T: smp.T, V: F(smp.V), Stale: smp.Stale})
+		}
+	}
+	return out
+}
